@@ -130,8 +130,13 @@ def gen_iso(rng, n):
         decl = "type AE = %s\n\n" % e if alias else ""
         shape = sh.replace("E", "AE" if alias else e)
         src = "package %s\n\nimport %s\n\n%stype T %s\n\n%s\n" % (name, imp, decl, shape, ISO_CALLS[pl].replace("X", "*T" if ptr else "T"))
+        # every fifth package keeps its call in a file that ANOTHER tool generated (its header says so): the call is a
+        # derive call like any other
+        header = i % 5 == 3
+        if header:
+            src = "// Code generated by some-other-tool. DO NOT EDIT.\n\n" + src
         files["iso/%s/%s.go" % (name, name)] = src
-        meta[name] = {"imported": e, "shape": shape, "plugin": pl, "arg": "*T" if ptr else "T", "alias": alias}
+        meta[name] = {"imported": e, "shape": shape, "plugin": pl, "arg": "*T" if ptr else "T", "alias": alias, "generated_header": header}
     return files, meta
 
 
@@ -265,6 +270,7 @@ def iso_part(rep, binp, rng, root):
     rep.cov["distinct_nontrivial"] += len(okp)
     rep.cov["isolated_packages"] = {"generated": len(okp), "refused_with_message": refused,
                                     "through_alias": sum(1 for n in okp if meta[n].get("alias")),
+                                    "in_a_file_with_a_generated_header": sum(1 for n in okp if meta[n].get("generated_header")),
                                     "by_plugin": {pl: sum(1 for n in okp if meta[n]["plugin"] == pl) for pl in sorted(ISO_CALLS)}}
 
 
